@@ -1,0 +1,77 @@
+//! Verification API (compiled only with `--cfg nomt_verif`).
+//!
+//! Thin, add-only wrappers that let the verification harness drive internal bookkeeping code
+//! directly — the free list of the value store and the probing of the hash table — on inputs of
+//! its choosing, so that the executable Lean models of that code can be compared with it step by
+//! step. Nothing here is used by the store itself.
+#![allow(missing_docs)]
+
+use crate::{
+    beatree::{allocator::free_list::FreeList, PageNumber},
+    io::PagePool,
+};
+
+/// The free list together with the allocation frontier, driven the way one sync drives it:
+/// `SyncAllocator::allocate` for every allocation index, then `SyncFinisher::finish`.
+pub struct FreeListSim {
+    free_list: FreeList,
+    page_pool: PagePool,
+    bump: u32,
+}
+
+impl FreeListSim {
+    /// `portions`: tail portion first, head portion last, items bottom of the stack first (the
+    /// in-memory order of `FreeList::portions`).
+    pub fn new(portions: Vec<(u32, Vec<u32>)>, bump: u32) -> Self {
+        FreeListSim {
+            free_list: FreeList::verif_from_portions(portions),
+            page_pool: PagePool::new(),
+            bump,
+        }
+    }
+
+    pub fn len(&self) -> usize {
+        self.free_list.as_clean().len()
+    }
+
+    /// The page `SyncAllocator::allocate` returns for the given allocation index.
+    pub fn allocate(&self, allocation_index: usize) -> u32 {
+        let free_list = self.free_list.as_clean();
+        if allocation_index >= free_list.len() {
+            self.bump + (allocation_index - free_list.len()) as u32
+        } else {
+            free_list.get_nth_pop(allocation_index).0
+        }
+    }
+
+    /// The bookkeeping of `SyncFinisher::finish`. Returns the free-list pages to write as
+    /// (page number, previous page number, items).
+    pub fn finish(&mut self, allocations: usize, freed: Vec<u32>) -> Vec<(u32, u32, Vec<u32>)> {
+        let bumps = allocations - self.free_list.discard(allocations);
+        let mut next_bump = PageNumber(self.bump + bumps as u32);
+        let freed = freed.into_iter().map(PageNumber).collect();
+        let pages = self.free_list.commit(&self.page_pool, freed, &mut next_bump);
+        self.bump = next_bump.0;
+        pages
+            .iter()
+            .map(|(pn, page)| {
+                let (prev, items) = FreeList::verif_decode_page(&page[..]);
+                (pn.0, prev, items)
+            })
+            .collect()
+    }
+
+    pub fn portions(&self) -> Vec<(u32, Vec<u32>)> {
+        self.free_list.verif_portions()
+    }
+
+    pub fn bump(&self) -> u32 {
+        self.bump
+    }
+
+    pub fn head_pn(&self) -> Option<u32> {
+        self.free_list.head_pn().map(|pn| pn.0)
+    }
+}
+
+pub use crate::bitbox::verif::{allocate_bucket, hash_raw_page_id, probe_results};
